@@ -324,6 +324,190 @@ func init() {
 			c.Errf("clientstream: checkResponse has no `StatusCode == http.StatusX` test")
 		}
 		fmt.Fprintf(&b, "/-- checkResponse: status reported as ErrSessionMissing -/\ndef sessionGoneStatus : Nat := %d\n", gone)
+		// --- connectSSE: what ends the retry loop. The loop's select has the arms `<-c.done`, `<-ctx.Done()` (the
+		//     CALLER's context) and `<-time.After(delay)`; the branch taken when `c.client.Do(req)` fails must not
+		//     leave the loop on a property of the attempt's ERROR (every timeout of net and net/http answers
+		//     errors.Is(err, context.DeadlineExceeded) while the caller's context is live).
+		stopCanceled, stopDeadline, stopTimeout, stopOther := false, false, false, false
+		var errBranch, errExits, selArms []string
+		ctxArmReturns := ""
+		foundDo := false
+		norm := func(n ast.Node) string { return strings.Join(strings.Fields(c.Src(n)), " ") }
+		var atoms func(e ast.Expr) []ast.Expr
+		atoms = func(e ast.Expr) []ast.Expr {
+			switch x := e.(type) {
+			case *ast.ParenExpr:
+				return atoms(x.X)
+			case *ast.BinaryExpr:
+				if x.Op == token.LOR {
+					return append(atoms(x.X), atoms(x.Y)...)
+				}
+			}
+			return []ast.Expr{e}
+		}
+		classify := func(cond ast.Expr) {
+			for _, a := range atoms(cond) {
+				switch src := norm(a); {
+				case src == "errors.Is(err, context.Canceled)":
+					stopCanceled = true
+				case src == "errors.Is(err, context.DeadlineExceeded)":
+					stopDeadline = true
+				case strings.Contains(src, ".Timeout()") || strings.Contains(src, "os.IsTimeout("):
+					stopTimeout = true
+				case src == "ctx.Err() != nil":
+					// the caller's context itself: a stop condition of the loop, not a property of the error
+				default:
+					stopOther = true
+				}
+			}
+		}
+		exits := func(n ast.Node) bool { // does n contain a return / break / goto?
+			found := false
+			ast.Inspect(n, func(m ast.Node) bool {
+				switch y := m.(type) {
+				case *ast.ReturnStmt:
+					found = true
+				case *ast.BranchStmt:
+					if y.Tok == token.BREAK || y.Tok == token.GOTO {
+						found = true
+					}
+				case *ast.FuncLit:
+					return false
+				}
+				return true
+			})
+			return found
+		}
+		if fd := c.Func("mcp", "streamableClientConn", "connectSSE"); fd != nil {
+			ast.Inspect(fd.Body, func(n ast.Node) bool {
+				switch x := n.(type) {
+				case *ast.SelectStmt:
+					for _, st := range x.Body.List {
+						cc, ok := st.(*ast.CommClause)
+						if !ok || cc.Comm == nil {
+							selArms = append(selArms, "default")
+							continue
+						}
+						arm := norm(cc.Comm)
+						selArms = append(selArms, arm)
+						if arm == "<-ctx.Done()" {
+							for _, b := range cc.Body {
+								if r, ok := b.(*ast.ReturnStmt); ok {
+									var rs []string
+									for _, e := range r.Results {
+										rs = append(rs, norm(e))
+									}
+									ctxArmReturns = strings.Join(rs, ", ")
+								}
+							}
+						}
+					}
+				case *ast.BlockStmt, *ast.CommClause:
+					var list []ast.Stmt
+					if b, ok := x.(*ast.BlockStmt); ok {
+						list = b.List
+					} else {
+						list = x.(*ast.CommClause).Body
+					}
+					for i := 0; i+1 < len(list); i++ {
+						as, ok := list[i].(*ast.AssignStmt)
+						if !ok || len(as.Rhs) != 1 {
+							continue
+						}
+						ce, ok := as.Rhs[0].(*ast.CallExpr)
+						if !ok || !strings.HasSuffix(c.Src(ce.Fun), ".client.Do") {
+							continue
+						}
+						is, ok := list[i+1].(*ast.IfStmt)
+						if !ok || norm(is.Cond) != "err != nil" {
+							c.Errf("clientstream: connectSSE: `client.Do` is not followed by `if err != nil`")
+							continue
+						}
+						foundDo = true
+						for _, st := range is.Body.List {
+							errBranch = append(errBranch, norm(st))
+							switch y := st.(type) {
+							case *ast.IfStmt:
+								if exits(y) {
+									errExits = append(errExits, norm(y.Cond))
+									classify(y.Cond)
+									if y.Else != nil {
+										stopOther = true
+									}
+								}
+							case *ast.BranchStmt:
+								if y.Tok != token.CONTINUE {
+									errExits = append(errExits, "unconditional "+y.Tok.String())
+									stopOther = true
+								}
+							default:
+								if exits(st) {
+									errExits = append(errExits, "unconditional: "+norm(st))
+									stopOther = true
+								}
+							}
+						}
+					}
+				}
+				return true
+			})
+		} else {
+			c.Errf("clientstream: connectSSE not found")
+		}
+		if !foundDo {
+			c.Errf("clientstream: connectSSE: `resp, err := c.client.Do(req)` followed by `if err != nil` not found")
+			stopOther = true
+		}
+		if errExits == nil {
+			errExits = []string{}
+		}
+		c.Fact("clientstream.connectSSE_err_branch", errBranch)
+		c.Fact("clientstream.connectSSE_err_exits", errExits)
+		c.Fact("clientstream.connectSSE_select", map[string]any{"arms": selArms, "ctx_done_returns": ctxArmReturns})
+		// handleSSE: a failed connectSSE fails the connection iff the caller's context is live
+		guard := ""
+		if fd := c.Func("mcp", "streamableClientConn", "handleSSE"); fd != nil {
+			ast.Inspect(fd.Body, func(n ast.Node) bool {
+				b, ok := n.(*ast.BlockStmt)
+				if !ok {
+					return true
+				}
+				for i := 0; i+1 < len(b.List); i++ {
+					as, ok := b.List[i].(*ast.AssignStmt)
+					if !ok || len(as.Rhs) != 1 || !strings.HasSuffix(c.Src(as.Rhs[0].(ast.Expr)), ")") {
+						continue
+					}
+					ce, ok := as.Rhs[0].(*ast.CallExpr)
+					if !ok || !strings.HasSuffix(c.Src(ce.Fun), ".connectSSE") {
+						continue
+					}
+					if is, ok := b.List[i+1].(*ast.IfStmt); ok && norm(is.Cond) == "err != nil" {
+						var parts []string
+						for _, st := range is.Body.List {
+							if in, ok := st.(*ast.IfStmt); ok {
+								callsFail := false
+								ast.Inspect(in.Body, func(m ast.Node) bool {
+									if c2, ok := m.(*ast.CallExpr); ok && strings.HasSuffix(c.Src(c2.Fun), ".fail") {
+										callsFail = true
+									}
+									return true
+								})
+								if callsFail {
+									parts = append(parts, "if "+norm(in.Cond)+" { c.fail }")
+									continue
+								}
+							}
+							parts = append(parts, norm(st))
+						}
+						guard = strings.Join(parts, "; ")
+					}
+				}
+				return true
+			})
+		}
+		c.Fact("clientstream.handleSSE_reconnect_failure", guard)
+		fmt.Fprintf(&b, "/-- mcp/streamable.go connectSSE, the branch taken when `c.client.Do(req)` fails: the tests of the attempt's ERROR\nunder which the branch leaves the retry loop at once (as built: none — the loop stops on the CALLER's context,\n`c.done` and the budget only). `stopOnOtherTest`: an early exit the extractor cannot classify. -/\n")
+		fmt.Fprintf(&b, "def stopOnIsCanceled : Bool := %v\ndef stopOnIsDeadline : Bool := %v\ndef stopOnTimeout : Bool := %v\ndef stopOnOtherTest : Bool := %v\n", stopCanceled, stopDeadline, stopTimeout, stopOther)
 		hdr, _ := c.ConstString("mcp", "lastEventIDHeader")
 		c.Fact("clientstream.last_event_id_header", hdr)
 		b.WriteString("end Generated.ClientStream\n")
